@@ -678,6 +678,30 @@ func run(c *engine.Ctx) {
 		})
 	}
 
+	// (e0) quick: an eighth of the classes on 9 vertices (8 of 64 parts of search.All(9), rotating with the seed) under 6
+	// relabellings each: the smallest witnesses of several seeded defects are 9-vertex graphs that no family contains
+	if !c.Thorough() {
+		for a := int(c.Seed()) % 8; a < 64; a += 8 {
+			a := a
+			c.Unit(fmt.Sprintf("classes9-sample/%d", a), func() {
+				var list []*rg.G
+				if pi := c.Call("input-source search.All(9)", func() {
+					gen.ClassesFromLibrary(9, a, 64, func(g *rg.G) { list = append(list, g) })
+				}); pi != nil {
+					c.Inconclusive("input source search.All(9) panicked: " + pi.String())
+					return
+				}
+				for gi, g := range list {
+					gi := gi
+					if !checkClass(c, "classes9", g.G6(), g, 6, func(i int) *engine.Rng { return c.Rand("c01-classes9", (a*100000+gi)*32+i) }, nil) && c.Stopped() {
+						return
+					}
+				}
+				c.Obs("classes_n=9_checked(sample)", len(list))
+			})
+		}
+	}
+
 	// (e) thorough: classes n = 9 x 16, 1/16 of n = 10 x 8 (input source: search.All, count checked offline)
 	if c.Thorough() {
 		for a := 0; a < 64; a++ {
